@@ -1408,6 +1408,22 @@ def _nat_grad_without_kwargs(rng, xc, xc_params=None):
             scf.W = [w.copy() for w in W0]
             scf._precompute()
             e = max(e, float(np.abs(g_plain - g_ref).max() / max(1e-12, np.abs(g_ref).max())))
+    # the SAME list object that the SCF object holds, changed IN PLACE after the fields were pre-computed (what a user does who perturbs scf.W[ik][spin]):
+    # the keyword-less call is handed scf.W itself and still has to build the fields from the coefficients as they are now
+    from eminus import backend as xp
+
+    scf.W = [xp.asarray(w.copy()) for w in W0]
+    scf._precompute()
+    held = scf.W
+    for ik in range(at.kpts.Nk):
+        held[ik][...] = xp.asarray(W1[ik])
+    g_plain = [[np.asarray(get_grad(scf, ik, sp, held)) for sp in range(2)] for ik in range(at.kpts.Nk)]
+    scf.W = [xp.asarray(w.copy()) for w in W1]
+    scf._precompute()
+    for ik in range(at.kpts.Nk):
+        for sp in range(2):
+            g_ref = np.asarray(get_grad(scf, ik, sp, scf.W, **scf._precomputed))
+            e = max(e, float(np.abs(g_plain[ik][sp] - g_ref).max() / max(1e-12, np.abs(g_ref).max())))
     return e
 
 
